@@ -339,6 +339,10 @@ public:
 
   //! Prepends `item` to the vector.
   ASMJIT_INLINE Error prepend(Arena& arena, const T& item) noexcept {
+    // `item` can be an element of this vector - copy it before the storage is reallocated or its content shifted.
+    uint8_t item_copy[sizeof(T)];
+    memcpy(item_copy, static_cast<const void*>(&item), sizeof(T));
+
     ASMJIT_PROPAGATE(reserve_additional(arena));
 
     memmove(static_cast<void*>(static_cast<T*>(_data) + 1),
@@ -346,7 +350,7 @@ public:
             size_t(_size) * sizeof(T));
 
     memcpy(static_cast<void*>(_data),
-           static_cast<const void*>(&item),
+           static_cast<const void*>(item_copy),
            sizeof(T));
 
     _size++;
@@ -355,6 +359,10 @@ public:
 
   //! Inserts an `item` at the specified `index`.
   ASMJIT_INLINE Error insert(Arena& arena, size_t index, const T& item) noexcept {
+    // `item` can be an element of this vector - copy it before the storage is reallocated or its content shifted.
+    uint8_t item_copy[sizeof(T)];
+    memcpy(item_copy, static_cast<const void*>(&item), sizeof(T));
+
     ASMJIT_ASSERT(index <= _size);
     ASMJIT_PROPAGATE(reserve_additional(arena));
 
@@ -364,7 +372,7 @@ public:
             size_t(_size - index) * sizeof(T));
 
     memcpy(static_cast<void*>(dst),
-           static_cast<const void*>(&item),
+           static_cast<const void*>(item_copy),
            sizeof(T));
 
     _size++;
@@ -373,10 +381,14 @@ public:
 
   //! Appends `item` to the vector.
   ASMJIT_INLINE Error append(Arena& arena, const T& item) noexcept {
+    // `item` can be an element of this vector - copy it before the storage is reallocated or its content shifted.
+    uint8_t item_copy[sizeof(T)];
+    memcpy(item_copy, static_cast<const void*>(&item), sizeof(T));
+
     ASMJIT_PROPAGATE(reserve_additional(arena));
 
     memcpy(static_cast<void*>(static_cast<T*>(_data) + _size),
-           static_cast<const void*>(&item),
+           static_cast<const void*>(item_copy),
            sizeof(T));
 
     _size++;
@@ -417,6 +429,10 @@ public:
   //! Can only be used together with `reserve_additional()`. If `reserve_additional(N)` returns `Error::kOk` then N elements
   //! can be added to the vector without checking if there is a place for them. Used mostly internally.
   ASMJIT_INLINE void prepend_unchecked(const T& item) noexcept {
+    // `item` can be an element of this vector - copy it before the storage is reallocated or its content shifted.
+    uint8_t item_copy[sizeof(T)];
+    memcpy(item_copy, static_cast<const void*>(&item), sizeof(T));
+
     ASMJIT_ASSERT(_size < _capacity);
     T* data = static_cast<T*>(_data);
 
@@ -427,7 +443,7 @@ public:
     }
 
     memcpy(static_cast<void*>(data),
-           static_cast<const void*>(&item),
+           static_cast<const void*>(item_copy),
            sizeof(T));
     _size++;
   }
@@ -447,6 +463,10 @@ public:
 
   //! Inserts an `item` at the specified `index` (unsafe case).
   ASMJIT_INLINE void insert_unchecked(size_t index, const T& item) noexcept {
+    // `item` can be an element of this vector - copy it before the storage is reallocated or its content shifted.
+    uint8_t item_copy[sizeof(T)];
+    memcpy(item_copy, static_cast<const void*>(&item), sizeof(T));
+
     ASMJIT_ASSERT(_size < _capacity);
     ASMJIT_ASSERT(index <= _size);
 
@@ -456,7 +476,7 @@ public:
             size_t(_size - index) * sizeof(T));
 
     memcpy(static_cast<void*>(dst),
-           static_cast<const void*>(&item),
+           static_cast<const void*>(item_copy),
            sizeof(T));
 
     _size++;
